@@ -571,7 +571,7 @@ func (w *Worker) callSSA(caller *frame, callpos token.Pos, fn *ssa.Function, arg
 			return in(fr, args)
 		}
 		if fn.Blocks == nil {
-			panic(engineError{"no code for function: " + fn.String()})
+			panic(engineError{fmt.Sprintf("no code for function: %s (called from %v)", fn.String(), caller.stack(6))})
 		}
 	}
 	return w.exec(fr, args, env)
@@ -833,7 +833,7 @@ func (w *Worker) callBuiltin(caller *frame, callpos token.Pos, fn *ssa.Builtin, 
 			if n == 0 {
 				return ""
 			}
-			panic(engineError{"unsafe.String of a foreign pointer"})
+			panic(engineError{fmt.Sprintf("unsafe.String of a foreign pointer %T at %v", args[0], caller.stack(5))})
 		}
 		if p.str != nil {
 			return mkStr(strBytes(p.str)[:n])
